@@ -27,7 +27,10 @@ RULE = (
     "exception thrown at it: the awaitable suspended there must receive that very object. (b) With only "
     "synchronous arguments (lists / iterators / plain functions) every tool, aggregation and adapter completes "
     "with zero suspensions - also for long inputs (40-90 items, runs of 70-100 equal keys in groupby), so that "
-    "no size threshold hides a suspension. (c) While all this runs, and in a fresh subprocess where asyncio's loop accessors, "
+    "no size threshold hides a suspension (sync-huge-*: 65539 / 100003 items under a running asyncio loop). Every third "
+    "case of (a) and (b) is driven by hand WHILE a real asyncio loop is running in the thread (library code probing for a "
+    "running loop finds one; a Future or shielded task it awaits reaches the hand driver as a foreign suspension), and the "
+    "exception thrown at every other position is asyncio.CancelledError itself. (c) While all this runs, and in a fresh subprocess where asyncio's loop accessors, "
     "Lock, sleep, Future, tasks ... are replaced BEFORE asyncstdlib is imported, a generated battery of "
     "operations must complete with zero recorded accesses. Non-trivial: a run with >= 2 suspensions from >= 2 "
     "different doubles, or an all-sync run of a tool with a callable. One evaluation = one driven run."
